@@ -70,6 +70,10 @@ class SymCOO:
     def tocsc(self):
         return self
 
+    def __getattr__(self, name):
+        raise px.Unsupported('scipy sparse-matrix attribute `%s` of a matrix whose index pattern is symbolic (only entries and the shape are modelled; index '
+                             'structures of concrete patterns are computed by the real scipy in O1.assembly_history / O1.assembly_cubic_element)' % name)
+
     def entry(self, u, v):
         L = self.data.length()
         terms = []
@@ -276,6 +280,228 @@ def o1_orientation(h):
     _asm_meta(h, [c], 'kValues: 36 free reals, no symmetry hypothesis')
     g = ['assembled_entry_is_the_block_sum_for_arbitrary_blocks']
     px.run_px(h, c.name, make_assembly_harness(c, g), cap=120, order=('lra2', 'core'), expect_goals=g)
+
+
+# ------------------------------------------------------------------------------------------ O1: call histories / higher order, concrete BC layouts
+# The BC layouts are CONCRETE here (a forked configuration choice), so the real DofManager class runs on real numpy (sorting,
+# searching, scipy's COO->CSC conversion of an index pattern are executed by the real libraries: constant folding) and only the
+# block values are symbolic: what the solver decides is "for ALL block values" per layout history.
+class SymCSC:
+    """scipy.sparse.csc_matrix((data, indices, indptr), shape) with symbolic data and a concrete pattern: entry (u, v) is the sum
+    of data[k] over the k in column v (indptr[v] <= k < indptr[v+1]) with indices[k] == u"""
+
+    def __init__(self, arg, shape=None, **kw):
+        data, indices, indptr = arg
+        self.data, self.indices, self.indptr = data, onp.asarray(indices), onp.asarray(indptr)
+        if shape is None or self.indptr.shape[0] != int(shape[1]) + 1 or int(self.indptr[-1]) > data.data.shape[0] or self.indices.shape[0] != data.data.shape[0]:
+            raise ValueError('csc_matrix: inconsistent index pointer / index / data arrays')
+        if self.indices.size and (self.indices.min() < 0 or self.indices.max() >= int(shape[0])):
+            raise ValueError('csc_matrix: row index exceeds matrix dimensions')
+        self.shape = (int(shape[0]), int(shape[1]))
+
+    def tocsc(self):
+        return self
+
+    def entry(self, u, v):
+        if v >= self.shape[1]:
+            return 0.0
+        ks = [k for k in range(int(self.indptr[v]), int(self.indptr[v + 1])) if int(self.indices[k]) == u]
+        return v_sum([self.data.data[k] for k in ks]) if ks else 0.0
+
+
+def _to_pa(x, kind):
+    if isinstance(x, PA):
+        return x
+    a = onp.asarray(x)
+    return dense_pa([v.item() for v in a.reshape(-1)], kind)
+
+
+def coo_stub(arg, shape=None, **kw):
+    """coo_matrix: symbolic data -> SymCOO (concrete index arrays are lifted); all-concrete arguments -> the real scipy"""
+    import scipy.sparse
+    try:
+        data, (row, col) = arg
+    except (TypeError, ValueError):
+        return scipy.sparse.coo_matrix(arg, shape=shape, **kw)
+    if not any(isinstance(x, PA) for x in (data, row, col)):
+        return scipy.sparse.coo_matrix(arg, shape=shape, **kw)
+    return SymCOO((_to_pa(data, 'f'), (_to_pa(row, 'i'), _to_pa(col, 'i'))), shape=shape)
+
+
+def csc_stub(arg, shape=None, **kw):
+    import scipy.sparse
+    if isinstance(arg, tuple) and len(arg) == 3 and isinstance(arg[0], PA):
+        return SymCSC(arg, shape=shape)
+    return scipy.sparse.csc_matrix(arg, shape=shape, **kw)
+
+
+class HybridNP:
+    """numpy for a module that handles CONCRETE index data and symbolic values: everything is the real numpy, except the
+    reductions that receive an array of symbolic values"""
+
+    def __getattr__(self, name):
+        return getattr(onp, name)
+
+    def bincount(self, x, weights=None, minlength=0):
+        if not isinstance(weights, PA):
+            return onp.bincount(x, weights=weights, minlength=minlength)
+        x = onp.asarray(x)
+        weights._need_dense('bincount weights')
+        if x.ndim != 1 or weights.ndim != 1 or x.shape[0] != weights.data.shape[0]:
+            raise ValueError('bincount: the weights and list don\'t have the same length')
+        if x.size and x.min() < 0:
+            raise ValueError('bincount: first argument must be non-negative')
+        n = max(int(minlength), int(x.max()) + 1 if x.size else 0)
+        return dense_pa([v_sum([weights.data[t] for t in range(x.shape[0]) if int(x[t]) == s_]) if (x == s_).any() else 0.0 for s_ in range(n)], 'f')
+
+
+def load_assembler_module_concrete_patterns():
+    mod = px.load_module(REL_ASM)
+    mod.onp = HybridNP()
+    mod.coo_matrix = coo_stub
+    mod.csc_matrix = csc_stub
+    return mod
+
+
+P3_COORDS = None
+
+
+def _p3_cfg():
+    """one cubic triangle: 10 nodes, 2 fields, 20 dofs per element (numpy's default sort is not stable beyond 16 entries)"""
+    from optimism import Interpolants
+    pe, _ = Interpolants.make_parent_elements(3)
+    coords = onp.asarray(pe.coordinates, dtype=float).tolist()
+    return Cfg('tri1_P3_f2', coords, [list(range(len(coords)))], 2, extra=False)
+
+
+def real_dof_manager(cfg, member):
+    """the real DofManager class (real numpy) for a concrete layout; DofManager reads functionSpace.mesh only"""
+    import jax.numpy as jnp
+    from optimism import FunctionSpace, Mesh
+    nodeSets = {s_: jnp.array([j for j in range(cfg.nN) if member[s_][j]], dtype=int) for s_ in cfg.sets}
+    mesh = Mesh.Mesh(jnp.array(cfg.coords), jnp.array(cfg.conns), None, None, None, None, nodeSets, None)
+    return FunctionSpace.DofManager(types.SimpleNamespace(mesh=mesh), cfg.dim, [FunctionSpace.EssentialBC(nodeSet=a, component=c) for a, c in cfg.bcs])
+
+
+def _layout(cfg, pairs):
+    """membership flags of the layout that constrains the (node, component) pairs"""
+    member = {'A%d' % c: [False] * cfg.nN for c in range(cfg.dim)}
+    for n, c in pairs:
+        member['A%d' % c][n] = True
+    return member
+
+
+def choose(ex, name, n):
+    """an input that selects one of n configurations: a symbolic integer, forked into its values"""
+    k = ex.int(name)
+    ex.assume(k >= 0)
+    ex.assume(k <= n - 1)
+    for i in range(n - 1):
+        if bool(k == i):
+            return i
+    return n - 1
+
+
+def make_history_harness(cfg, histories):
+    """histories(ex) -> list of layouts (each a list of (node, component) pairs), chosen through forked inputs. All assemblies
+    of one history run IN ONE loaded instance of the assembler module (module-level state persists between the calls); each
+    call gets its own free block values."""
+    nd, nD, nEl = cfg.ndof, cfg.nD, cfg.nEl
+    npe = len(cfg.conns[0])
+
+    def fn(ex):
+        layouts = histories(ex)
+        conns = onp.asarray(cfg.conns)
+        if ex.symbolic:
+            asm = load_assembler_module_concrete_patterns()
+        else:
+            import importlib
+            import jax.numpy as jnp
+            from optimism import SparseMatrixAssembler as asm
+            importlib.reload(asm)                # module-level state as in a fresh interpreter
+        for call, pairs in enumerate(layouts):
+            member = _layout(cfg, pairs)
+            orc = Oracle(cfg, member)
+            kv = [px.unwrap(ex.real('k%d_e%d_%d_%d' % (call, e, i, j))) for e in range(nEl) for i in range(nD) for j in range(nD)]
+            symblock = b_and(*[c14.v_eq(kv[(e * nD + i) * nD + j], kv[(e * nD + j) * nD + i]) for e in range(nEl) for i in range(nD) for j in range(i + 1, nD)])
+            try:
+                dm = real_dof_manager(cfg, member)
+                if ex.symbolic:
+                    K = asm.assemble_sparse_stiffness_matrix(dense_pa(kv, 'f', (nEl, npe, cfg.dim, npe, cfg.dim)), conns, dm)
+                    shape, entry = tuple(int(raw(x)) for x in K.shape), K.entry
+                else:
+                    Kd = asm.assemble_sparse_stiffness_matrix(onp.asarray(kv, dtype=float).reshape(nEl, npe, cfg.dim, npe, cfg.dim), jnp.asarray(conns), dm).toarray()
+                    shape = Kd.shape
+                    entry = lambda u, v, Kd=Kd: float(Kd[u, v]) if (u < Kd.shape[0] and v < Kd.shape[1]) else 0.0
+            except (ValueError, IndexError, TypeError) as e:
+                ex.goal('assembly_call_%d_executes' % (call + 1), Holds(False), info='%s: %s (layout %s)' % (type(e).__name__, e, pairs))
+                return
+            n = int(orc.nfree)
+            info = 'call %d of the history %s in one module instance' % (call + 1, layouts)
+            ex.goal('assembly_call_%d_executes' % (call + 1), Holds(True))
+            ex.goal('matrix_of_call_%d_has_shape_unknowns_by_unknowns' % (call + 1), Holds(shape == (n, n)), info=info)
+            A = block_sum_oracle(cfg, orc, kv)
+            cells = [(u, v) for u in range(n) for v in range(n)]
+            ex.goal('matrix_of_call_%d_is_the_block_sum_for_symmetric_blocks' % (call + 1),
+                    Eq([entry(u, v) for u, v in cells], [A[u][v] for u, v in cells], when=symblock, scale=1.0), info=info)
+            ex.goal('matrix_of_call_%d_is_symmetric_for_symmetric_blocks' % (call + 1),
+                    Eq([entry(u, v) for u, v in cells], [entry(v, u) for u, v in cells], when=symblock, scale=1.0), info=info)
+    return fn
+
+
+def _hist_goals(ncalls):
+    out = []
+    for c in range(1, ncalls + 1):
+        out += ['assembly_call_%d_executes' % c, 'matrix_of_call_%d_has_shape_unknowns_by_unknowns' % c, 'matrix_of_call_%d_is_the_block_sum_for_symmetric_blocks' % c,
+                'matrix_of_call_%d_is_symmetric_for_symmetric_blocks' % c]
+    return out
+
+
+def _hist_meta(h, cfg, what):
+    from optimism import FunctionSpace, SparseMatrixAssembler
+    D = FunctionSpace.DofManager
+    h.encoded('optimism/SparseMatrixAssembler.py executed as source, symbolic block values on concrete index patterns',
+              SparseMatrixAssembler.assemble_sparse_stiffness_matrix, D.__init__, D._make_hessian_coordinates, D._make_hessian_bc_mask)
+    h.bounds(cfg.describe(), what)
+    h.assume_note('BC layouts are concrete configuration choices (forked inputs): the real DofManager class and every index computation of the assembler run on real '
+                  'numpy / scipy; kValues are free reals; scipy matrices that receive symbolic data are SymCOO (duplicates summed) / SymCSC (entry = sum of the data of the '
+                  'column range whose row index matches); numpy.bincount with symbolic weights is the sum of the weights per bin',
+                  'all assemblies of a history run in ONE loaded instance of the assembler module; the replay re-imports the real module and repeats the calls in order')
+    h.outside('layouts outside the listed families; meshes beyond the bound')
+
+
+@obligation(P, 'O1.assembly_history[tri2_f2]', cap=600)
+def o1_history(h):
+    """HISTORY: two different DofManagers assembled one after the other in the same assembler module instance — every ordered
+    pair of single constrained dofs (64 histories; nodes of equal valence give equal unknown and entry counts with different
+    layouts) and every ordered pair of fully constrained nodes (16 histories): BOTH matrices equal the block sum (hence the
+    Hessian) and are symmetric, for all symmetric block values"""
+    c = _asm_cfgs()['tri2_f2']
+    _hist_meta(h, c, 'histories of 2 assemblies: (a) constrained dof d1 then constrained dof d2, d1, d2 in 0..7; (b) node n1 fully constrained then node n2, n1, n2 in 0..3; '
+                     'kValues: 72 free reals per call')
+
+    def single(ex):
+        d1, d2 = choose(ex, 'first_constrained_dof', c.ndof), choose(ex, 'second_constrained_dof', c.ndof)
+        return [[(d1 // c.dim, d1 % c.dim)], [(d2 // c.dim, d2 % c.dim)]]
+
+    def node(ex):
+        n1, n2 = choose(ex, 'first_constrained_node', c.nN), choose(ex, 'second_constrained_node', c.nN)
+        return [[(n1, k) for k in range(c.dim)], [(n2, k) for k in range(c.dim)]]
+    px.run_px(h, 'single_dof_then_single_dof', make_history_harness(c, single), cap=60, order=('lra2', 'core'), expect_goals=_hist_goals(2))
+    px.run_px(h, 'node_then_node', make_history_harness(c, node), cap=60, order=('lra2', 'core'), expect_goals=_hist_goals(2))
+
+
+P3_LAYOUTS = [[], [(0, 0), (0, 1)], [(1, 0), (3, 0), (4, 0), (2, 0)], [(n, 1) for n in range(10)]]
+
+
+@obligation(P, 'O1.assembly_cubic_element', cap=600)
+def o1_cubic(h):
+    """one CUBIC triangle (10 nodes, 2 fields: 20 dofs per element, 400 block values): the assembled matrix equals the block sum and
+    is symmetric for all symmetric block values, for the layouts: no BC, one node fixed, one edge constrained in x, all y
+    constrained — assembled in sequence in one module instance"""
+    c = _p3_cfg()
+    _hist_meta(h, c, 'history of %d assemblies with the layouts (node, component) = %s; kValues: 400 free reals per call' % (len(P3_LAYOUTS), P3_LAYOUTS))
+    px.run_px(h, 'cubic', make_history_harness(c, lambda ex: P3_LAYOUTS), cap=120, order=('lra2', 'core'), expect_goals=_hist_goals(len(P3_LAYOUTS)))
 
 
 # =========================================================================================== JX part: O2, O3, O4
